@@ -30,10 +30,20 @@ Definition check07 (c : caseD) : verdict :=
   end.
 
 (* C05: decoding the encoding gives the same fields, and re-encoding the same bytes *)
+(* known finding D13: port / table / queue statistics records of a multipart reply (type
+   byte 19, multipart types 3 4 5) are decoded through new(T) with OpenFlow 1.0 layouts *)
+Definition is_d13 (d : list byte) : bool :=
+  match d with
+  | _ :: ty :: _ :: _ :: _ :: _ :: _ :: _ :: m1 :: m0 :: _ =>
+    N.eqb (b2n ty) 19 && N.eqb (b2n m1) 0 && (N.eqb (b2n m0) 3 || N.eqb (b2n m0) 4 || N.eqb (b2n m0) 5)
+  | _ => false
+  end.
+
 Definition check05 (c : caseD) : verdict :=
   match c with
   | Par input oc re lenv cmp same =>
     let d := unpack input in
-    mkv (model_agrees d (n_of oc) (unpack re) (n_of lenv) true)
-        (N.eqb (n_of oc) 0 && bytes_eqb (unpack re) d && N.eqb (n_of same) 1 && N.eqb (n_of lenv) (N.of_nat (length d)))
+    let agree := model_agrees d (n_of oc) (unpack re) (n_of lenv) true in
+    let accept := N.eqb (n_of oc) 0 && bytes_eqb (unpack re) d && N.eqb (n_of same) 1 && N.eqb (n_of lenv) (N.of_nat (length d)) in
+    if accept then mkv agree true else if agree && is_d13 d then VKnown 13 else mkv agree false
   end.
